@@ -958,7 +958,10 @@ class Parser:
         if self.accept('id'):
             return self.create_node(IdNode, t)
         if self.accept('number'):
-            return self.create_node(NumberNode, t)
+            try:
+                return self.create_node(NumberNode, t)
+            except ValueError as e:
+                raise ParseException(f'Invalid number literal: {e}', self.lexer.getline(t.line_start), t.lineno, t.colno)
         if self.accept_any(ALL_STRINGS):
             return self.create_node(StringNode, t)
         return EmptyNode(self.current.lineno, self.current.colno, self.current.filename)
